@@ -736,6 +736,10 @@ class Interp:
         if isinstance(base, Obj):
             if attr in base.attrs:
                 return base.attrs[attr]
+            if attr in ("__getattribute__", "__getattr__"):
+                return native(lambda interp, a, k, n, base=base: interp.getattr(base, a[0], n))
+            if attr == "__setattr__":
+                return native(lambda interp, a, k, n, base=base: base.attrs.__setitem__(a[0], a[1]))
             if base.cls is not None:
                 v = self.class_attr(base.cls, attr)
                 if isinstance(v, FuncVal):
@@ -1167,6 +1171,8 @@ class Interp:
             return type(a0)
         if name == "id":
             return Sym("id", truthy=True)
+        if name == "object":
+            return Obj(None, {}, name="object()")
         if name == "super":
             self.unsupported(node, "super() outside supported pattern")
         if name in BUILTIN_EXC:
